@@ -18,12 +18,14 @@ structure Rel (b : SendBuf) (s : SendSpec) : Prop where
   chunks_pos : ∀ c ∈ b.chunks, 0 < c
   size_eq : s.size = min s.data.length s.maxData
   base_le : s.base ≤ s.size
+  lt62 : s.data.length < 2 ^ 62
 
 theorem rel_init (cap : Nat) : Rel (SendBuf.withCapacity cap) (SendSpec.init cap) := by
-  refine ⟨⟨List.Pairwise.nil, by simp [SendBuf.withCapacity]⟩, rfl, rfl, rfl, ?_, ?_, ?_, ?_, ?_⟩
+  refine ⟨⟨List.Pairwise.nil, by simp [SendBuf.withCapacity]⟩, rfl, rfl, rfl, ?_, ?_, ?_, ?_, ?_, ?_⟩
   · simp [SendBuf.withCapacity, SendBuf.written, SendSpec.init]
   · intro x; simp [SendSpec.init, SendBuf.withCapacity, BufMap.abs]
   · simp [SendBuf.withCapacity]
+  · simp [SendSpec.init]
   · simp [SendSpec.init]
   · simp [SendSpec.init]
 
